@@ -17,14 +17,21 @@ def stName : St → String
   | .einconceivable => "einconceivable" | .fault => "fault"
 
 def parseMode (s : String) : Option Mode :=
-  if s == "string" then some .string else if s == "stream" then some .stream
-  else if s == "pipe" then some .cmdpipe else if s == "file" then some .file
+  if s == "string" || s == "cstring" then some .string else if s == "stream" then some .stream
+  else if s == "pipe" || s == "pipe0" then some .cmdpipe else if s == "file" then some .file
   else if s == "allfile" then some .allfile else if s == "mmap" then some .mmap
   -- natural paths of esl_buffer_OpenFile / esl_buffer_Open on a file of at most eslBUFFER_SLURPSIZE bytes: slurped
   else if s == "auto" || s == "open" then some .allfile else none
 
 def parseOp (ws : List String) : Option Op :=
   match ws.head? with
+  -- the same calls with NULL for the optional results
+  | some "getline0" => some .getLine
+  | some "fetchline0" => some .fetchLine
+  | some "fetchlinestr0" => some .fetchLineStr
+  | some "gettoken0" => (argHex? ws "sep").map .getToken
+  | some "fetchtoken0" => (argHex? ws "sep").map .fetchToken
+  | some "fetchtokenstr0" => (argHex? ws "sep").map .fetchTokenStr
   | some "getline" => some .getLine
   | some "fetchline" => some .fetchLine
   | some "fetchlinestr" => some .fetchLineStr
@@ -44,6 +51,9 @@ def parseOp (ws : List String) : Option Op :=
 def fmt (o : Out) (s : Sess) : String :=
   if o.st == .fault then "fault" else
   stName o.st ++ " " ++ hexOrDash o.bytes ++ " n=" ++ toString o.n ++ " off=" ++ toString s.b.offset
+    ++ " a=" ++ (match s.b.hasfp, s.b.anchor with
+        | true, some a => toString (s.b.base + a) ++ "/" ++ toString s.b.nanchor
+        | _, _ => "-")
     ++ (if o.z then " z=1" else "") ++ (if s.moved then " moved=1" else "")
 
 structure DState where
@@ -55,18 +65,33 @@ def stepLine (st : Option DState) (line : String) : Option DState × String :=
   let ws := words line
   if ws.head? == some "open" then
     match (arg? ws "mode").bind parseMode, argNat? ws "ps", argHex? ws "hex" with
-    | some m, some ps, some src =>
+    | some m, some ps0, some unit =>
+      -- ps=0: no override, the library's default page size; rep=k: the input is the hex unit repeated k times
+      let ps := if ps0 = 0 then 4096 else ps0
+      let src := match argNat? ws "rep" with
+        | some k => (List.replicate k unit).flatten
+        | none => unit
       let s : Sess := { b := openBuf m ps src }
-      (some { s := s, a := AState.init src, P := ps }, fmt { st := .ok } s)
+      (some { s := s, a := AState.init src, P := if ps0 = 0 then 512 else ps0 }, fmt { st := .ok } s)
     | _, _, _ => (st, "bad-op")
+  else if ws.head? == some "openfail" then
+    -- documented failures of the openers (constant answers; see h_buffer.c)
+    match arg? ws "kind" with
+    | some "file" | some "open" | some "pipe" => (st, "enotfound bf=1 msg=1 unset=1")
+    | some "cmd" => (st, "fail bf=1 msg=1 unset=1")
+    | _ => (st, "bad-op")
   else
     match st, parseOp ws with
     | some d, some op =>
-      let (o, s') := d.s.step op
+      let (o0, s0) := d.s.step op
+      -- with NULL result pointers nothing is handed out
+      let null := (ws.head?.getD "").endsWith "0"
+      let (o, s') := if null then (({ st := o0.st } : Out), { s0 with lastp := none }) else (o0, s0)
       let v := validB d.P d.a op
       let (so, a') := specStep d.a op
+      let a' := if null then { a' with lastp := none } else a'
       (some { d with s := s', a := a' },
-       fmt o s' ++ " spec=" ++ stName so.st ++ "," ++ hexOrDash so.bytes ++ "," ++ toString so.off
+       fmt o s' ++ " spec=" ++ stName so.st ++ "," ++ hexOrDash (if null then [] else so.bytes) ++ "," ++ toString so.off
          ++ " valid=" ++ (if v then "1" else "0"))
     | _, _ => (st, "bad-op")
 
